@@ -150,8 +150,17 @@ class ParserModel:
             if pat.get("k") != "Variant":
                 continue
             rule = pat["variant"]
-            if b.k == "if" and _is_err(b.a[1]):
-                c = b.a[0]
+            # the rejecting test of this arm: an `if` whose taken branch is Err (directly, or below a let-else / early return
+            # that was rebuilt as a conditional), or the negated form with the Err in the else branch
+            cands = []
+            for x in subterms(b):
+                if x.k == "if" and _is_err(x.a[1]):
+                    cands.append((x.a[0], x))
+                elif x.k == "if" and _is_err(x.a[2]) and x.a[0].k == "un" and x.a[0].a[0] == "Not":
+                    cands.append((x.a[0].a[1], x))
+            if cands:
+                c, b = cands[0]
+            if cands:
                 # a local helper as the condition: look at what it computes
                 for _ in range(3):
                     if c.k == "call" and c.a[0] in self.prog.bodies and self.prog.items[c.a[0]]["kind"] in ("Fn", "AssocFn") \
